@@ -51,7 +51,7 @@ CHECKS = {
    "Every byte string of length <=5 (quick) / <=7 (thorough) over {LF,CR,'a',0xC3,0xA9} x every chunking x buffer sizes {1,2,3,5,8,64} x 3 reader behaviours (1.0M / 90M runs), plus long random streams (lines longer than the 128KiB buffer, chunk sizes around 131072) through the default buffer.",
    "Reader driven as the streams drive it (ReadAndSend until (0,EOF), then Finish).", "§4 C15"),
  "C16": ("exploration", "reference model of file generations vs real Tailer+fileStream on the real filesystem, step barriers through harness-controlled wakers (under -race)",
-   "Every history of length <=3 (quick) / <=5 (thorough) over {append line, fragment, CRLF line, truncate, rename+create, copy+truncate, delete, recreate, poll} plus 300/3000 random histories of length 12/40, a fifth of them with content present before tailing begins; after every step a logical barrier (all live streams back at their waker; stream gone after delete; pattern poll done after recreate); the final delivered sequence must equal the model's (unique ids give a first-difference witness).",
+   "Every history of length <=3 (quick) / <=4 (thorough) over {append line, fragment, CRLF line, truncate, rename+create, copy+truncate, delete, recreate, poll} plus 300/3000 random histories of length 12/40, a fifth of them with content present before tailing begins; after every step a logical barrier (all live streams back at their waker; stream gone after delete; pattern poll done after recreate); the final delivered sequence must equal the model's (unique ids give a first-difference witness).",
    "The barrier makes 'the tailer has observed each step' a logical condition; a stuck barrier is reported with a goroutine dump (violation when the stream did not end / the path was not tailed again, else inconclusive).", "§4 C16"),
  "C17": ("exploration", "offline checker over recorded write and delivery logs of real pipes / sockets / stdin with random chunking, delays and cancellation (under -race)",
    "60/1500 schedules per stream type (named pipe, unix and tcp stream sockets with 1-4 concurrent connections in one-shot and continuous mode, unixgram and udp with 1-3 senders) plus 8/150 stdin runs through a re-exec'd helper: random chunk sizes (cuts inside a line and inside CRLF), random delays, unterminated tails, closes, cancellation before any data / mid-way / after everything. Per writer the delivered lines must equal the written ones in order plus the tail once (or be a prefix after an early cancel), no delivered line may contain two writers' ids, and the output channel must close after the writer closes (pipes, one-shot) or after cancellation.",
